@@ -18,7 +18,9 @@ RULE = ('seeded random C and C++ projects (vf/gen/c07gen.py: 3-10 translation un
         'directories that reach the compiler through header_directory()/string includes=/'
         'opts.include_dir/raw -I/global_options, never listed individually; header and '
         'include-directory names plain or with spaces and Make-special characters, each admitted '
-        'per compiler and back end by calibration against a hand-written Makefile/build.ninja that '
+        '(the random names include the same character twice, and directed two-TU projects carry '
+        'every special character twice - adjacent and separated - in headers that are renamed and '
+        'then deleted) per compiler and back end by calibration against a hand-written Makefile/build.ninja that '
         'consumes the compiler\'s raw -MMD output - one name at a time, then all names of a history '
         'together in both orders) built by the real gcc/g++ (clang/clang++ in '
         'thorough) through recording wrappers, under histories of 6-12 edits (modify header/'
@@ -74,6 +76,7 @@ def floors(tier):
             'edit:stale-dep-header-gone': 12 if q else 200,
             'names:special-admitted': 15 if q else 300,
             'calibration:admitted': 30 if q else 500,
+            'edit:header-gone-with-repeated-character': 20 if q else 150,
             'edit:mod_pch': 3 if q else 50,
             'edit:header-only-through-pch': 3 if q else 50,
             'obligations:pch-users-must-recompile': 10 if q else 300,
@@ -384,6 +387,17 @@ def _calibrate_pch(compiler, lang, backend, ext):
 def cases(tier, seed):
     quick = tier == 'quick'
     n = 8 if quick else 130
+    # directed: every special character twice in a header name, each such header renamed
+    # and deleted (small two-TU projects; '=' alone because of its known finding)
+    k = 0
+    for compiler in (['gcc'] if quick else ['gcc', 'clang']):
+        for chars in (g.REPEAT_QUICK if quick else g.REPEAT_ALL):
+            k += 1
+            st, hist = g.directed_repeat(('c', 'c++')[k % 2], chars,
+                                         g.INCMODES[k % len(g.INCMODES)])
+            for backend in ('make', 'ninja'):
+                yield {'index': 1000 + k, 'backend': backend, 'compiler': compiler, 'jobs': 1,
+                       'directed': 'repeated:' + chars, 'state': st, 'history': hist}
     for i in range(n):
         rng = core.rng_for(seed, 'c07', i)
         lang = ('c', 'c++')[i % 2] if quick else rng.choice(['c', 'c++'])
@@ -826,6 +840,8 @@ def run_history(case, st, hist, res, count=True, keep_going=False):
                 prev['via_pch'] = bool(via_pch) and kind != 'clean'
                 if stale_dep_gone:
                     ev('edit:stale-dep-header-gone')
+                    if any((edited or '').count(c) > 1 for c in g.name_chars(edited or '')):
+                        ev('edit:header-gone-with-repeated-character')
                 chars = g.name_chars(edited_for_class or '')
                 if chars:
                     ev('names:special-admitted')
@@ -945,6 +961,8 @@ def triggers(backend, compiler, lang, names, head):
             tries = []
             if in_name:
                 tries.append(('char:' + c, 'h1%sm.h' % c, 'inc'))
+                if any(x.count(c) > 1 for x in comps[1:]):
+                    tries.append(('char:' + c + '@repeated', 'h1%s%sm%sk.h' % (c, c, c), 'inc'))
                 if any(x.startswith(c) for x in comps[1:]):
                     tries.append(('char:' + c + '@lead', '%sh1.h' % c, 'inc'))
             if in_dir:
